@@ -74,13 +74,39 @@ def gen_case(rng, tier):
             "l3": True if tier == "thorough" else None}
 
 
-def gen_w(rng, cfg, fm, favourites):
+# Every kind of public write operation appears in a fixed rotation over the case index (coverage does not depend on
+# luck); the weights are the multiplicities in the cycle.
+KIND_CYCLE = ["iso_up_auto", "mat_del", "ads_over", "iso_del", "iso_up_auto", "mat_over", "ads_del", "iso_up",
+              "iso_up_auto", "mat_up", "ads_up", "ptype_up", "iso_up_auto", "ptype_over", "ptype_del", "iso_del"]
+
+
+def setup_ops_for(kind, rng, fm):
+    """Prior content that makes the operation of this kind meaningful (an item WITH properties to delete/overwrite)."""
+    ops = []
+    base = {"db": "F1", "session": "A"}
+    if kind in ("mat_del", "mat_over") and not any(fm.prop_names(c) and not fm.refs_material(n) for n, c in fm.mats.items()):
+        name = rng.choice(["VfM2", "VfM3"])
+        if name not in fm.mats:
+            ops.append(dict(base, op="material_to_db", mat=dict(name=name, **c08.UMATS[name][0]), overwrite=False,
+                            autoinsert_properties=True))
+    if kind in ("ads_del", "ads_over") and not any(n in fm.ads and not fm.refs_adsorbate(n) for n in c08.UADS):
+        name = rng.choice(["VfAlpha", "VfGamma"])
+        ops.append(dict(base, op="adsorbate_to_db", ads=dict(name=name, **c08.UADS[name][0]), overwrite=False,
+                        autoinsert_properties=True))
+    if kind == "iso_del" and not fm.isos:
+        ops.append(dict(base, op="isotherm_to_db", iso=c08._iso_spec(rng, {"open_domain": False}), autoinsert_material=True,
+                        autoinsert_adsorbate=True, via="function"))
+    return ops
+
+
+def gen_w(rng, cfg, fm, favourites, kind=None):
     """The write operation under test, biased towards operations that do change the file."""
-    kind = rng.choices(
+    kind = kind or rng.choices(
         ["iso_up_auto", "iso_up", "iso_del", "ads_up", "ads_over", "ads_del", "mat_up", "mat_over", "mat_del",
          "ptype_up", "ptype_over", "ptype_del"],
-        [26, 10, 10, 10, 8, 5, 8, 8, 5, 4, 3, 3])[0]
+        [22, 8, 10, 9, 8, 7, 8, 8, 8, 4, 3, 3])[0]
     # mostly operations that can succeed on this prior content (about one case in eight is a deliberate refusal)
+    forced = kind
     if rng.random() < 0.875:
         for _ in range(20):
             feasible = {"iso_del": bool(fm.isos), "ads_over": any(n in fm.ads for n in c08.UADS),
@@ -123,8 +149,10 @@ def gen_w(rng, cfg, fm, favourites):
                   autoinsert_properties=rng.random() < 0.8)
     elif kind == "ads_del":
         present = sorted(n for n in fm.ads if n in c08.UNIVERSE["ads"])
+        free = [n for n in present if not fm.refs_adsorbate(n)]
+        pick = rng.choice(free) if free and rng.random() < 0.7 else (rng.choice(present) if present else None)
         op.update(op="adsorbate_delete_db", by=rng.choice(["name", "object"]),
-                  name=rng.choice(present) if present and rng.random() < 0.85 else rng.choice(c08.UNIVERSE["ads"]))
+                  name=pick if pick and rng.random() < 0.9 else rng.choice(c08.UNIVERSE["ads"]))
     elif kind in ("mat_up", "mat_over"):
         present = sorted(fm.mats)
         name = None
@@ -137,8 +165,11 @@ def gen_w(rng, cfg, fm, favourites):
                   autoinsert_properties=rng.random() < 0.8)
     elif kind == "mat_del":
         present = sorted(fm.mats)
+        # prefer items that have properties (several rows to delete) and are not referenced (the deletion can succeed)
+        rich = [n for n in present if fm.prop_names(fm.mats[n]) and not fm.refs_material(n)]
+        pick = rng.choice(rich) if rich and rng.random() < 0.7 else (rng.choice(present) if present else None)
         op.update(op="material_delete_db", by=rng.choice(["name", "object"]),
-                  name=rng.choice(present) if present and rng.random() < 0.85 else rng.choice(c08.UNIVERSE["mats"]))
+                  name=pick if pick and rng.random() < 0.9 else rng.choice(c08.UNIVERSE["mats"]))
     else:
         t = rng.choice(["adsorbate", "material", "isotherm", "isotype"])
         present = sorted(fm.ptypes[t])
@@ -203,6 +234,17 @@ def _trial_child(w, dbmap, plan, arm, watch, retry, twice, known_shas=()):
         sqlseam.reset(None)
         r2 = storeops.exec_op(w, dbmap, state)
         out["r2"] = _slim(r2)
+    return out
+
+
+def _library_reads(path):
+    """Fresh session: read everything through the public retrieval functions (first access after a crash)."""
+    from sim.checks import storeops
+    out = []
+    for op in ({"op": "isotherms_from_db", "db": "F1", "criteria": {}}, {"op": "materials_from_db", "db": "F1"},
+               {"op": "adsorbates_from_db", "db": "F1"}):
+        r = storeops.exec_op(op, {"F1": path}, {})
+        out.append([op["op"], r["outcome"], r.get("msg")])
     return out
 
 
@@ -293,8 +335,28 @@ class Case:
         r = self.parent.call({"cmd": "trial", "w": w, "dbmap": {"F1": self.trial_path}, "plan": plan, "arm": arm,
                               "watch": (self.trial_dir if self.use_l3 else None), "retry": retry, "twice": twice,
                               "known_shas": list(known_shas)}, timeout=180)
+        self.last_lib = None
+        if r["result"] is None and any(n != "trial.db" for n in os.listdir(self.trial_dir)):
+            # the process died and left more than the database behind (a journal): the NEXT USER'S first access is
+            # through the library, not through this harness - replay that on a copy before the raw audit touches it
+            self.last_lib = self.library_first_access()
         d, stray = self.audit()
         return r, d, stray
+
+    def library_first_access(self):
+        lib_dir = os.path.join(self.rundir, "libfirst")
+        shutil.rmtree(lib_dir, ignore_errors=True)
+        shutil.copytree(self.trial_dir, lib_dir)
+        path = os.path.join(lib_dir, "trial.db")
+        r = fork_call(_library_reads, (path,), timeout=120)
+        out = {"reads": r["result"], "died": r["result"] is None}
+        try:
+            d = c08.dump_db(path)
+            out["sha"], out["clean"], out["dump"] = c08.dump_sha(d), c08.dump_clean(d), d
+        except Exception as e:  # e.g. "database disk image is malformed"
+            out["sha"], out["clean"], out["dump"], out["dump_error"] = None, False, None, type(e).__name__
+        shutil.rmtree(lib_dir, ignore_errors=True)
+        return out
 
     def fresh_retry(self, w, state_path):
         """Retry W once in a fresh session (fork of the pristine worker) on a copy of state_path."""
@@ -502,6 +564,20 @@ class Case:
                 self.tuples.add(f"{w['op']}|{pos}|{fkind}" if layer != "L3" else f"{w['op']}|{SYSCALL_KIND.get(syscalls[arm - 1])}|{min(len(syscalls) - arm, 30)}")
         sha = c08.dump_sha(d)
         self.events.append([where, ("died" if died else res["r1"]["outcome"]), "pre" if sha == sha_pre else "post" if sha == sha_post else "other"])
+        lib = getattr(self, "last_lib", None)
+        if lib is not None:
+            self.count("probe:first-access-through-library-after-crash")
+            bad = [x for x in (lib["reads"] or []) if x[1] != "ok"]
+            if lib["died"] or bad:
+                self.fail("not-retrievable-after-crash", f"w={wclass} {where} first-access=library "
+                          f"outcome={'died' if lib['died'] else bad[0][1]}", {"reads": lib["reads"]})
+                return
+            if not lib["clean"]:
+                self.fail("integrity", f"w={wclass} {where} first-access=library", {"error": lib.get("dump_error")})
+                return
+            if lib["sha"] not in (sha_pre, sha_post):
+                self.fail("half-applied", f"w={wclass} {where} first-access=library tables={_half_sig(D_pre, D_post, lib['dump'])}", {})
+                return
         # clause 1
         if not c08.dump_clean(d):
             self.fail("integrity", f"w={wclass} {where}", {"integrity": d["integrity"][:3], "fk": d["fk"][:3]})
@@ -615,7 +691,18 @@ def _prepare(ctx, case, rng):
                         pass
         finally:
             s.kill()
-        w = gen_w(rng, case["cfg"], fm, favourites)
+        s2 = Session(c08._session_factory({"F1": path}), name="G2")
+        try:
+            kind = case.get("kind")
+            if kind:
+                for op in setup_ops_for(kind, rng, fm):
+                    r = s2.call({"cmd": "op", "op": op})
+                    prefix.append(op)
+                    if r["outcome"] == "ok":
+                        fm.apply(op, r)
+        finally:
+            s2.kill()
+        w = gen_w(rng, case["cfg"], fm, favourites, kind=case.get("kind"))
     finally:
         shutil.rmtree(rundir, ignore_errors=True)
     return prefix, w
@@ -641,6 +728,7 @@ def run(ctx, index):
     rng = random.Random(ctx.rs(index))
     case = gen_case(rng, ctx.tier)
     case["l3_pick"] = (index % 4 == 0)
+    case["kind"] = KIND_CYCLE[index % len(KIND_CYCLE)]
     prefix, w = _prepare(ctx, case, rng)
     res = execute(ctx, case, prefix, w)
     if index < 2:
